@@ -16,7 +16,7 @@ for d in sorted(glob.glob(os.path.join(ROOT, "benign", "*", "meta.json"))):
     for c in un:
         ls = [l for l in ch[c]["lines"] if l.startswith("UNDECIDED")]
         if ls: why = ls[0][10:150]; break
-    kind = {"P": "local clean-up", "Q": "equivalent expressions", "R": "helper extracted / inlined", "S": "loop / data-flow style"}.get(m["id"][-1], "")
+    kind = {"P": "local clean-up", "Q": "equivalent expressions", "R": "helper extracted / inlined", "S": "loop / data-flow style", "T": "texts, derives, comments", "U": "named constants / literal forms", "V": "tidiness / performance tweak", "W": "redundant defensive check added / removed"}.get(m["id"][-1], "")
     print("| %s | %s | %s | %d | %s | %s | %s |" % (m["id"], notes.get(m["id"], kind), ", ".join(os.path.basename(f) for f in m["changed_files"]), len(ch), ", ".join(ok) or "-", (", ".join(un) + (" (" + why + ")" if why else "")) or "-", ", ".join(fa) or "-"))
 print()
 print("totals over all (edit, check) pairs: exit 0: %d, exit 2: %d, exit 1: %d" % (tot[0], tot[2], tot[1]))
